@@ -17,7 +17,7 @@ pub fn generate(seed: u64, tier: &str, out: &mut dyn std::io::Write) {
     let rtsig = libc::SIGRTMIN() + 1;
     for i in 0..n {
         let mut r = Rng::for_case(seed, 3, i);
-        let scen = *r.pick(&["ok", "destfail", "destfail", "destpanic", "badapp", "nostop", "ok-signals", "ok-signals", "destfail-signals", "stoptimeout", "stoptimeout-signals"]);
+        let scen = *r.pick(&["ok", "destfail", "destfail", "destpanic", "badapp", "nostop", "ok-signals", "ok-signals", "destfail-signals", "stoptimeout", "stoptimeout-signals", "nostop-storm", "nostop-storm"]);
         let nblock = r.range(0, 5) as usize;
         let nspin = r.range(0, 2) as usize;
         let mut args = vec!["-t".to_string(), nblock.to_string(), "-s".to_string(), nspin.to_string(), "-g".to_string()];
@@ -77,15 +77,44 @@ pub fn generate(seed: u64, tier: &str, out: &mut dyn std::io::Write) {
             })));
         }
         let mut fail_client = None;
-        if scen == "nostop" {
+        if scen == "nostop" || scen == "nostop-storm" {
             let mut fc = FailSpotName::testing_client();
             fc.set_enabled(FailSpotName::StopProcess, true);
             fail_client = Some(fc);
+        }
+        // a steady stream of realtime signals to the running (not group-stopped) threads while they are being
+        // attached: a signal that is being delivered at the moment of the attach is reported to the dumper, which
+        // has to pass it on
+        let storm_stop = Arc::new(std::sync::atomic::AtomicBool::new(false));
+        let mut storm = None;
+        if scen == "nostop-storm" {
+            let sent = sent.clone();
+            let stop = storm_stop.clone();
+            let pid = t.pid;
+            let tids: Vec<i32> = t.threads.iter().filter(|x| Some(x.idx) != helper_idx).map(|x| x.tid).collect();
+            storm = Some(std::thread::spawn(move || {
+                let mut k = 0usize;
+                while !stop.load(std::sync::atomic::Ordering::SeqCst) {
+                    let target = tids[k % tids.len()];
+                    k += 1;
+                    if tgkill(pid, target, rtsig) {
+                        let mut s = sent.lock().unwrap();
+                        if let Some(e) = s.iter_mut().find(|e| e.0 == target) {
+                            e.1 += 1;
+                        }
+                    }
+                    std::thread::sleep(std::time::Duration::from_micros(20));
+                }
+            }));
         }
         // spinner counters before
         let spin_before: Vec<(i32, u64)> = t.threads.iter().filter(|x| x.spin).map(|x| (x.tid, t.read_u64(x.regs_addr + 384))).collect();
         let o = dump_case("C03", &format!("a{}-{}", seed, i), &t, &cfg, &mut dest, "");
         set_sync(None);
+        storm_stop.store(true, std::sync::atomic::Ordering::SeqCst);
+        if let Some(h) = storm {
+            let _ = h.join();
+        }
         if let Some(mut fc) = fail_client {
             fc.set_enabled(FailSpotName::StopProcess, false);
         }
@@ -107,6 +136,20 @@ pub fn generate(seed: u64, tier: &str, out: &mut dyn std::io::Write) {
                 std::thread::sleep(std::time::Duration::from_millis(5));
             }
         }
+        let (soft_st, soft_tree) = o.image.as_ref().map(|img| crate::c11::soft_error_field(img)).unwrap_or(("absent".into(), "-".into()));
+        // diagnostics for a signal that did not arrive: is it still pending, or gone?
+        let mut pend = String::new();
+        {
+            let sv = sent.lock().unwrap().clone();
+            for x in &t.threads {
+                let want = sv.iter().find(|e| e.0 == x.tid).map(|e| e.1 as u64).unwrap_or(0);
+                if t.read_u64(x.sig_addr) < want {
+                    let st = std::fs::read_to_string(format!("/proc/{}/task/{}/status", t.pid, x.tid)).unwrap_or_default();
+                    let pick = |k: &str| st.lines().find(|l| l.starts_with(k)).map(|l| l.split_whitespace().nth(1).unwrap_or("?").to_string()).unwrap_or("?".into());
+                    pend.push_str(&format!("{}:SigQ={}:SigPnd={}:ShdPnd={}:SigBlk={};", x.tid, pick("SigQ:"), pick("SigPnd:"), pick("ShdPnd:"), pick("SigBlk:")));
+                }
+            }
+        }
         let states: Vec<String> = t.task_states().iter().map(|(tid, s, tr)| format!("{}:{}:{}", tid, s, tr)).collect();
         let delivered: Vec<String> = t.threads.iter().map(|x| format!("{}:{}", x.tid, t.read_u64(x.sig_addr))).collect();
         let sent_s: Vec<String> = sent.lock().unwrap().iter().map(|(a, b)| format!("{}:{}", a, b)).collect();
@@ -116,8 +159,8 @@ pub fn generate(seed: u64, tier: &str, out: &mut dyn std::io::Write) {
         }).collect();
         writeln!(
             out,
-            "{} scen={}{} call={} after_states={} sent={} delivered={} spin={}",
-            o.line, scen, if helper_idx.is_some() { " helper=1" } else { "" }, call, states.join(","), sent_s.join(","), delivered.join(","),
+            "{} soft={} tree={} scen={}{}{} call={} after_states={} sent={} delivered={} spin={}",
+            o.line, soft_st, soft_tree, scen, if helper_idx.is_some() { " helper=1" } else { "" }, if pend.is_empty() { String::new() } else { format!(" pend={}", pend) }, call, states.join(","), sent_s.join(","), delivered.join(","),
             if spin_after.is_empty() { "-".to_string() } else { spin_after.join(",") }
         )
         .unwrap();
